@@ -4,7 +4,7 @@
 From Coq Require Import ZArith Reals Floats Bool.
 From Flocq Require Import Core BinarySingleNaN PrimFloat.
 From Coquelicot Require Import Complex.
-From PB Require Import Proofs.TwoSumExact Model.Phase2 Proofs.Floor Proofs.DayFrac Proofs.DayFrac3 Proofs.PhaseAdd Proofs.PhaseMore
+From PB Require Import Proofs.TwoSumExact Model.Phase2 Proofs.Floor Proofs.DayFrac Proofs.DayFrac3 Proofs.PhaseAdd Proofs.PhaseMore Proofs.PhaseAddWide
   Proofs.DayFracTail Proofs.FoldHalf Proofs.DayFracFold Proofs.TwoProduct Proofs.PhaseMul Proofs.PhaseAbs Proofs.PhaseDiv Model.PhaseOrd Model.PhaseDivmod Proofs.PhaseArgmin Proofs.PhaseDivmodProofs Proofs.PhaseDivmodFloor Proofs.FmodSpec Proofs.FloorDivSpec Proofs.PhaseDivmodFinal Gen.GenPhase Proofs.PhaseGen Gen.GenPhaseOrd Proofs.PhaseOrdGen.
 Open Scope R_scope.
 Notation fexp := (FLT_exp (-1074) 53).
@@ -49,6 +49,25 @@ Theorem C07_sub : forall (i1 f1 i2 f2 : PrimFloat.float) (k1 k2 : Z),
   Rabs (R_of d + R_of f - ((R_of i1 + R_of f1) - (R_of i2 + R_of f2))) <= bpow radix2 (-52) /\
   Rabs (R_of f) <= / 2.
 Proof. exact phase_sub_sound. Qed.
+(* ... and over the property's full range: operand counts up to 2^52, result count up to 2^52 - 2 *)
+Theorem C07_add_full : forall (i1 f1 i2 f2 : PrimFloat.float) (k1 k2 : Z),
+  fin i1 -> fin f1 -> fin i2 -> fin f2 ->
+  R_of i1 = IZR k1 -> R_of i2 = IZR k2 -> (Z.abs k1 <= 2 ^ 52)%Z -> (Z.abs k2 <= 2 ^ 52)%Z -> (Z.abs (k1 + k2) <= 2 ^ 52 - 2)%Z ->
+  Rabs (R_of f1) <= / 2 -> Rabs (R_of f2) <= / 2 ->
+  let '(d, f) := phase_add i1 f1 i2 f2 in
+  fin d /\ fin f /\ (exists k : Z, R_of d = IZR k) /\
+  Rabs (R_of d + R_of f - ((R_of i1 + R_of f1) + (R_of i2 + R_of f2))) <= bpow radix2 (-52) /\
+  Rabs (R_of f) <= / 2.
+Proof. exact phase_add_sound_wide. Qed.
+Theorem C07_sub_full : forall (i1 f1 i2 f2 : PrimFloat.float) (k1 k2 : Z),
+  fin i1 -> fin f1 -> fin i2 -> fin f2 ->
+  R_of i1 = IZR k1 -> R_of i2 = IZR k2 -> (Z.abs k1 <= 2 ^ 52)%Z -> (Z.abs k2 <= 2 ^ 52)%Z -> (Z.abs (k1 - k2) <= 2 ^ 52 - 2)%Z ->
+  Rabs (R_of f1) <= / 2 -> Rabs (R_of f2) <= / 2 ->
+  let '(d, f) := phase_sub i1 f1 i2 f2 in
+  fin d /\ fin f /\ (exists k : Z, R_of d = IZR k) /\
+  Rabs (R_of d + R_of f - ((R_of i1 + R_of f1) - (R_of i2 + R_of f2))) <= bpow radix2 (-52) /\
+  Rabs (R_of f) <= / 2.
+Proof. exact phase_sub_sound_wide. Qed.
 Theorem C07_neg : forall i f : PrimFloat.float,
   fin i -> fin f -> Rabs (R_of i) <= bpow radix2 52 - 1 -> Rabs (R_of f) <= / 2 ->
   let '(d, g) := day_frac (PrimFloat.opp i) (PrimFloat.opp f) in
@@ -276,3 +295,4 @@ Print Assumptions C07_generated_unary.
 Print Assumptions C07_generated_divmod.
 Print Assumptions C07_fold.
 Print Assumptions C07_unfolded_refuted.
+Print Assumptions C07_add_full.
